@@ -96,7 +96,7 @@ def gen_world(seed, classes=ALL_CLASSES, want_constraints=0.3, node_p=0.25, tag=
             g = gen.dag_bowtie(rv, float_w=float_w) if rv.random() < 0.4 else gen.dag_layered(rv, max_nodes=6, max_edges=8, max_routes=3, float_w=float_w)
             g = dict(g, kind="digraph")
         rl = random.Random(H(seed, tag, "laps"))
-        if flow_decomp and rl.random() < 0.12:
+        if flow_decomp and rl.random() < (0.25 if cname == "MinFlowDecompCycles" else 0.12):
             # every element to be explained lies on a cycle that each walk takes >= 2 times; entry / exit edges ignored
             g = gen.digraph_laps(rl, float_w=float_w)
     if g.get("routes") is None:
@@ -157,6 +157,7 @@ def gen_world(seed, classes=ALL_CLASSES, want_constraints=0.3, node_p=0.25, tag=
             args["k"] = k
     # constraints
     cons_key = "subpath_constraints" if dag else "subset_constraints"
+    forced_ignore = None
     zero = [[u, v] for u, v, f in graph["edges"] if f == 0]
     if zero and not dag:
         g = dict(g)
@@ -244,6 +245,7 @@ def gen_world(seed, classes=ALL_CLASSES, want_constraints=0.3, node_p=0.25, tag=
                 args.pop(cons_key + "_coverage", None)
                 graph = dict(graph)
                 lens = {}
+                short_edges = []
                 for c in cons:
                     for e in c:
                         lens.setdefault(tuple(e), rng.randint(3, 9))
@@ -254,6 +256,7 @@ def gen_world(seed, classes=ALL_CLASSES, want_constraints=0.3, node_p=0.25, tag=
                     for e in (c[-1], c[0]):
                         if not any(all(tuple(x) in list(zip(r_[:-1], r_[1:])) for x in c if x != e) and tuple(e) in list(zip(r_[:-1], r_[1:])) for r_ in g["routes"]):
                             lens[tuple(e)] = rng.choice([1, 1, 0])      # short, or of length zero: then it contributes nothing
+                            short_edges.append(list(e))
                             break
                 graph["edge_lengths"] = [[u, v, lens.get((u, v), rng.randint(1, 3))] for u, v, _ in graph["edges"]]
                 def best_frac(c):
@@ -262,6 +265,11 @@ def gen_world(seed, classes=ALL_CLASSES, want_constraints=0.3, node_p=0.25, tag=
                 worst = min(best_frac(c) for c in cons)
                 args["subpath_constraints_coverage_length"] = max(0.05, int(worst * 100 - 1) / 100.0)
                 args["length_attr"] = "len"
+                rc = random.Random(H(seed, tag, "cross-ignore"))
+                if short_edges and not flow_decomp and not cover and rc.random() < 0.5:
+                    # the edge that the length fraction lets every path avoid is, on top of that, ignored: nothing at all
+                    # requires a path through it
+                    forced_ignore = [rc.choice(short_edges)]
     # bow-tie graphs carry no generating routes; their constraints pair an edge into a hub with an edge out of
     # it that has a different flow value (only partially coverable by the paths of a small decomposition)
     if dag and not node_mode and cons_key not in args and g.get("hub_pairs") and rng.random() < want_constraints + 0.3:
@@ -332,6 +340,48 @@ def gen_world(seed, classes=ALL_CLASSES, want_constraints=0.3, node_p=0.25, tag=
             args[cons_key + "_coverage"] = 0.6
             args.pop("subpath_constraints_coverage_length", None)
             args.pop("length_attr", None)
+    rd = random.Random(H(seed, tag, "detour"))
+    if dag and not node_mode and not inner and base in ("kMinPathError", "kLeastAbsErrors") and rd.random() < 0.15:
+        # a chain with a detour that nothing requires: its edges are ignored (or carry no flow), and the constraint that
+        # names one of them, next to a long chain edge, is relaxed by a length fraction which the chain edge alone reaches
+        pool_ = gen.names(rd, 8)
+        chain = [pool_.pop() for _ in range(rd.randint(3, 5))]
+        f_ = _rw = rd.randint(2, 9) * (0.5 if float_w else 1)
+        i_ = rd.randrange(1, len(chain) - 1) if len(chain) > 3 else 1
+        x_ = pool_.pop()
+        ce_ = [[u_, v_, f_] for u_, v_ in zip(chain[:-1], chain[1:])]
+        zero_variant = rd.random() < 0.4
+        d1 = [chain[i_], x_, 0 if zero_variant else rd.randint(1, 9)]
+        d2 = [x_, chain[i_ + 1], 0 if zero_variant else rd.randint(1, 9)]
+        ee = ce_ + [d1, d2]
+        rd.shuffle(ee)
+        nn = []
+        for u_, v_, _ in ee:
+            for y_ in (u_, v_):
+                if y_ not in nn:
+                    nn.append(y_)
+        long_, short_ = rd.randint(3, 9), 1
+        if rd.random() < 0.5:
+            con_ = [[chain[i_ - 1], chain[i_]], d1[:2]]           # chain edge into the detour's start, then the detour
+            lens_ = {(chain[i_ - 1], chain[i_]): long_, (d1[0], d1[1]): short_}
+        elif i_ + 2 < len(chain):
+            con_ = [d2[:2], [chain[i_ + 1], chain[i_ + 2]]]
+            lens_ = {(chain[i_ + 1], chain[i_ + 2]): long_, (d2[0], d2[1]): short_}
+        else:
+            con_ = [[chain[i_ - 1], chain[i_]], d1[:2]]
+            lens_ = {(chain[i_ - 1], chain[i_]): long_, (d1[0], d1[1]): short_}
+        graph = {"kind": "dag", "nodes": nn, "edges": ee, "routes": [list(chain)], "weights": [f_],
+                 "edge_lengths": [[u_, v_, lens_.get((u_, v_), rd.randint(1, 10))] for u_, v_, _ in ee]}
+        g = dict(graph)
+        for k_ in (cons_key + "_coverage", "solution_weights_superset"):
+            args.pop(k_, None)
+        args[cons_key] = [con_]
+        args["subpath_constraints_coverage_length"] = int(100.0 * long_ / (long_ + short_) - 1) / 100.0
+        args["length_attr"] = "len"
+        args["k"] = 1
+        nroutes = 1
+        if not zero_variant:
+            forced_ignore = [d1[:2], d2[:2]]
     if cons_key not in args and not node_mode and rng.random() < 0.15:
         # a coverage fraction although there are no constraints: a legal call in which the fraction must mean nothing
         if dag and rng.random() < 0.3:
@@ -354,12 +404,18 @@ def gen_world(seed, classes=ALL_CLASSES, want_constraints=0.3, node_p=0.25, tag=
             ign = []
         if ign:
             args["elements_to_ignore"] = ign
+    if forced_ignore:
+        args["elements_to_ignore"] = forced_ignore
     if g.get("entry_exit"):
         args["elements_to_ignore"] = [list(e) for e in g["entry_exit"]]
         if "k" in args:
             args["k"] = len(g["routes"]) + (1 if rl.random() < 0.25 else 0)
         if cons_key not in args and rl.random() < 0.4:
             args[cons_key] = [[list(rl.choice(g["back_edges"]))]]
+        if cname == "MinFlowDecompCycles" and rl.random() < 0.6:
+            # guesses are taken from the flow values - here none of them need be a walk's weight, and the ignored entry /
+            # exit edges contribute values far above everything else
+            oo["optimize_with_guessed_weights"] = True
     # additional starts / ends
     if rng.random() < 0.2 and len(graph["nodes"]) >= 3 and (node_mode or not flow_decomp):
         cand = list(graph["nodes"])
@@ -626,12 +682,35 @@ def length_variant(world, rng):
         on_route.update(er)
         consecutive.update(zip(er[:-1], er[1:]))
     pairs = [(e1, e2) for e1 in E_ for e2 in E_ if e1[1] == e2[0] and (e1, e2) not in consecutive and e1 in on_route and e2 in on_route]
-    if pairs and rng.random() < 0.6:
+    cover_ = _base(world) in models.COVER_CLASSES
+    if pairs and rng.random() < (0.9 if cover_ else 0.6):
         e1, e2 = rng.choice(pairs)
         zero = rng.choice([e1, e2])
         lens[zero] = 0
         lens[e2 if zero == e1 else e1] = rng.randint(1, 9)
         a2["subpath_constraints"] = [[list(e1), list(e2)]] + ([c for c in a2["subpath_constraints"] if rng.random() < 0.5])
+    if cover_ and rng.random() < 0.6:
+        # cover models: an edge of length 0 that only one generating route uses (it costs a path of its own, if the other
+        # edges of that route are used elsewhere too), in a constraint together with a neighbour of positive length: the
+        # constraint can be met without the edge, the edge has to be covered all the same
+        use = {}
+        for r in g["routes"]:
+            for e in set(zip(r[:-1], r[1:])):
+                use[e] = use.get(e, 0) + 1
+        cand = []
+        for r in g["routes"]:
+            er = list(zip(r[:-1], r[1:]))
+            for i_, z in enumerate(er):
+                if use[z] == 1 and len(er) > 1:
+                    nb = er[i_ - 1] if i_ > 0 else er[i_ + 1]
+                    private = sum(1 for e in er if use[e] == 1)
+                    cand.append((private, z, nb, i_ > 0))
+        if cand:
+            best_ = min(c_[0] for c_ in cand)
+            _, z, nb, before = rng.choice([c_ for c_ in cand if c_[0] == best_])
+            lens[z] = 0
+            lens[nb] = rng.randint(1, 9)
+            a2["subpath_constraints"] = [[list(nb), list(z)] if before else [list(z), list(nb)]]
     g2["edge_lengths"] = [[u, v, lens[(u, v)]] for u, v, _ in g2["edges"] if (u, v) in lens]
     L = lambda e: lens.get(tuple(e), 1)
     worst = 1.0
@@ -644,7 +723,7 @@ def length_variant(world, rng):
     if worst <= 0.02:
         return None
     a2.pop("subpath_constraints_coverage", None)
-    a2["subpath_constraints_coverage_length"] = max(0.01, int(worst * 100 - 1) / 100.0) if worst < 1 or rng.random() < 0.5 else 1
+    a2["subpath_constraints_coverage_length"] = max(0.01, int(worst * 100 - 1) / 100.0) if worst < 1 or rng.random() < (0.2 if cover_ else 0.5) else 1
     a2["length_attr"] = "len"
     return w2
 
